@@ -20,6 +20,8 @@ class FontPalette:
 
 def rnd_color(r, pal=None, allow_fg=True, allow_var=True):
     k = r.random()
+    if k > 0.93:
+        return r.choice(["black", "#000", "#000000"])  # the default paint: elements that carry no paint attributes at all
     if k < 0.08 and allow_fg:
         return "currentColor"
     if k < 0.18 and allow_var and pal is not None:
